@@ -698,6 +698,8 @@ class Taylor3D(object):
             c = [(an, almax, alpha * apow) for (an, almax, apow) in acoeff]
         else:
             c = acoeff
+            if not (isinstance(alpha, Number) and alpha == 1):
+                for an, almax, apow in c: apow *= alpha
         for bn, blmax, bpow in bcoeff:
             # now add it into the list
             cpow = beta * bpow
